@@ -111,6 +111,17 @@ Definition mb_ass_slice (mem : list Z) (off n left right : Z) (other : pyval) : 
       else Ok (write mem (off + left) (firstn (Z.to_nat count) bs))
   end.
 
+(* a cdata on the right-hand side, as _fetch_as_buffer presents it to mb_ass_slice: `e` is the
+   regenerated computation of view->len, sd what the helper sees of the cdata, bs the bytes found at
+   its address (for an array: its real contents).  len = -1: length unknown, the slice length is
+   trusted (VPtrSrc); len = the real number of bytes: an ordinary buffer (VBuf); a len that is neither
+   is a defect of the helper: no pyval of this model describes it *)
+Definition cdata_source (e : lenexpr) (sd : srcdesc) (bs : list Z) : option pyval :=
+  let len := src_len e sd in
+  if len <? 0 then Some (VPtrSrc bs)
+  else if len =? zlen bs then Some (VBuf bs)
+  else None.
+
 (* subscripts: an integer or a slice(start, stop, step) of optional integers *)
 Inductive key := KInt (i : Z) | KSlice (start stop step : option Z) | KOther.
 
